@@ -733,7 +733,10 @@ def s_unpack_total(vc):
         vc.ensure("ok.consumed_within_buffer", And(out.result[0] >= 12, out.result[0] <= len_(buf)))
 
 
-@scenario("message.unpack_from.framing", functions=[M + ".unpack_from"], max_unroll=2)
+FRAMING_CANDS = [dict(name0="wWw.ExAmPlE.CoM", name1="MaIl.Example.ORG", name2="A.b"), dict(name0="example.com", name1="ns.example.com", name2="x")]
+
+
+@scenario("message.unpack_from.framing", functions=[M + ".unpack_from"], max_unroll=2, candidates=FRAMING_CANDS)
 def s_unpack_framing(vc):
     return _unpack_framing(vc, [(1, 1, 0, 0), (0, 0, 1, 1), (2, 0, 0, 0)], False)
 
